@@ -230,3 +230,12 @@ package utils
 //@   internal refused_only_outside_the_ranges: r0 == nil && r1 != nil && called(ParseInt) && callres(ParseInt, 0, 1) == nil ==>
 //@            len(r.rnges) > 0 && forall(i, 0, len(r.rnges), !(r.rnges[i].min <= callres(ParseInt, 0, 0) && callres(ParseInt, 0, 0) <= r.rnges[i].max))
 //@   loop 0 invariant forall(j, 0, $n, !(r.rnges[j].min <= intValue && intValue <= r.rnges[j].max))
+
+// ---------------------------------------------------------------------------
+// C14: the PROTO form of a stored value. Assumed of the converter is only that a successful conversion relates its
+// result to the path and the value it was given (schema lookup and type conversion are not under contract).
+//@ spec yangForm(*sdcpb.TypedValue, *sdcpb.Path, *sdcpb.TypedValue) Bool
+//@ func (*Converter).ConvertTypedValueToProto
+//@   trusted schema lookup and type conversion; specified as a relation between result and arguments only
+//@   noeffect
+//@   ensures r1 == nil ==> yangForm(r0, p, tv)
